@@ -366,7 +366,9 @@ def case(ctx, i, tier):
     # fresh identical build
     A2, _, _, _ = build(specA)
     compare(ctx, "C10:fresh-identical", episode(A2, aA, fold), TA, dsA, spec=specA)
-    if specA[0] != "default-state" and TA[-1][3] and rng.random() < 0.4:
+    if specA[0] != "default-state" and TA[-1][3] and len(TA) > 1 and rng.random() < 0.4:
+        # (len(TA) > 1: a window whose single timestep ends the episode at reset holds no decision - DESIGN 4.2-f;
+        #  backtest() is not defined for it)
         # the same actions through the other public way of running an episode, TradingEnv.backtest(policy)
         A3, _, _, _ = build(specA)
         want_rec = record_digest(A)
